@@ -198,22 +198,22 @@ Qed.
 
 (* ---- all six reader models ------------------------------------------------------------------------------------------- *)
 Definition expected (n : nat) (rk : Z) (t : tree) : tree :=
-  if (rk =? R_SCC)%Z then scc_expected n t else clean_trunc (S (S (S (S n)))) (mark_defaults rk t).
+  if (rk =? R_SCC)%Z then scc_expected n t else clean_trunc (S (S (S (S n)))) (unshare (mark_defaults rk t)).
 
 Theorem read_result_function_of_document : forall c rk ri t st st' ri' s n,
-  repaired c -> read c rk ri t st = (st', ri', s) ->
+  repaired c -> (n <= 60)%nat -> read c rk ri t st = (st', ri', s) ->
   snap (S (S (S (S n)))) st' s = expected n rk t.
 Proof.
-  intros c rk ri t st st' ri' s n [Hc2 Hc3] H. unfold expected.
+  intros c rk ri t st st' ri' s n [Hc2 Hc3] Hn H. unfold expected.
   destruct (rk =? R_SCC)%Z eqn:K.
   - apply Z.eqb_eq in K. subst rk. eapply scc_read_result_function_of_document; eauto.
-  - eapply read_result_function_of_document_partial; eauto.
+  - eapply read_result_function_of_document_partial; eauto. unfold FUEL. lia.
 Qed.
 
-(* two reads of the same document by the same kind of reader - whatever the stores, whatever the reader objects'
-   past - return equal snapshots (at every depth >= 4; the snapshots the model itself takes have depth FUEL = 64) *)
+(* two reads of the same result tree by the same kind of reader model - whatever the stores, whatever the reader
+   objects' past - return equal snapshots (depths 4 .. 64; the snapshots the model itself takes have depth FUEL = 64) *)
 Corollary read_same_document_same_result : forall c rk ri1 ri2 t st1 st2 st1' st2' r1 r2 s1 s2 n,
-  repaired c -> read c rk ri1 t st1 = (st1', r1, s1) -> read c rk ri2 t st2 = (st2', r2, s2) ->
+  repaired c -> (n <= 60)%nat -> read c rk ri1 t st1 = (st1', r1, s1) -> read c rk ri2 t st2 = (st2', r2, s2) ->
   snap (S (S (S (S n)))) st1' s1 = snap (S (S (S (S n)))) st2' s2.
 Proof.
   intros. erewrite read_result_function_of_document; eauto. erewrite read_result_function_of_document; eauto.
